@@ -361,4 +361,54 @@ theorem chars_output_valid (opt : Opt) (input : Bytes)
   exact specRunRecords_chars_valid opt hbt hjson ⟨hfill, hfb, hgen, by rw [hrep]; exact validUtf8_nil⟩ _
     (validUtf8_records opt.eol.byte (EOL.byte_ascii opt.eol) input hv)
 
+/-! ## concrete instances -/
+
+/-- `-c 2:3,-1` -/
+def c07Bounds : UserBoundsList :=
+  ⟨[.bound { l := .some 2, r := .some 3 },
+    .bound { l := .some (-1), r := .some (-1), isLast := true }], .cont⟩
+
+/-- `-c x{2:3}y{7=z}` : fillers, a fallback -/
+def c07BoundsFmt : UserBoundsList :=
+  ⟨[.filler [0x78], .bound { l := .some 2, r := .some 3 }, .filler [0x79],
+    .bound { l := .some 7, r := .some 7, isLast := true, fallback := some [0x7A] }], .cont⟩
+
+/-- what `parse_args` builds for `-c` (`-r ''`, `-j`), with `--json` (`-r ,`) or not, `-m` or not -/
+def c07Opt (bounds : UserBoundsList) (json m : Bool) : Opt :=
+  { delimiter := [0x09], bounds := bounds, boundsType := .characters, regexBag := some charsBag,
+    replaceDelimiter := some (if json then [0x2C] else []), join := true, json := json,
+    complement := m }
+
+/-- "aé€😎" -/
+def c07Line : Bytes := [0x61,0xC3,0xA9,0xE2,0x82,0xAC,0xF0,0x9F,0x98,0x8E]
+
+-- é€😎
+example : (cutStrCore c07Line (c07Opt c07Bounds false false) [10]).1 =
+    Run.ok [0xC3,0xA9,0xE2,0x82,0xAC,0xF0,0x9F,0x98,0x8E,10] := by decide
+example : specRecord (cfgOf (c07Opt c07Bounds false false)) c07Line =
+    Run.ok [0xC3,0xA9,0xE2,0x82,0xAC,0xF0,0x9F,0x98,0x8E,10] := by decide
+-- ["é","€","😎"]
+example : (cutStrCore c07Line (c07Opt c07Bounds true false) [10]).1 =
+    Run.ok [0x5B,0x22,0xC3,0xA9,0x22,0x2C,0x22,0xE2,0x82,0xAC,0x22,0x2C,0x22,0xF0,0x9F,0x98,0x8E,0x22,0x5D,10] := by
+  decide
+example : specRecord (cfgOf (c07Opt c07Bounds true false)) c07Line =
+    Run.ok [0x5B,0x22,0xC3,0xA9,0x22,0x2C,0x22,0xE2,0x82,0xAC,0x22,0x2C,0x22,0xF0,0x9F,0x98,0x8E,0x22,0x5D,10] := by
+  decide
+-- `-m`: a😎 (what 2:3 leaves out) aé€ (what -1 leaves out)
+example : (cutStrCore c07Line (c07Opt c07Bounds false true) [10]).1 =
+    Run.ok [0x61,0xF0,0x9F,0x98,0x8E,0x61,0xC3,0xA9,0xE2,0x82,0xAC,10] := by decide
+example : specRecord (cfgOf (c07Opt c07Bounds false true)) c07Line =
+    Run.ok [0x61,0xF0,0x9F,0x98,0x8E,0x61,0xC3,0xA9,0xE2,0x82,0xAC,10] := by decide
+-- format text and a fallback: xé€yz
+example : (cutStrCore c07Line (c07Opt c07BoundsFmt false false) [10]).1 =
+    Run.ok [0x78,0xC3,0xA9,0xE2,0x82,0xAC,0x79,0x7A,10] := by decide
+example : specRecord (cfgOf (c07Opt c07BoundsFmt false false)) c07Line =
+    Run.ok [0x78,0xC3,0xA9,0xE2,0x82,0xAC,0x79,0x7A,10] := by decide
+-- the hypotheses of the theorems hold for these requests
+example : AllNonzero c07Bounds.list ∧ LastMarked c07Bounds.list := by
+  refine ⟨?_, by simp [c07Bounds, LastMarked, countBounds]⟩
+  intro b hb
+  simp only [c07Bounds, List.mem_cons, BoF.bound.injEq, List.not_mem_nil, or_false] at hb
+  rcases hb with rfl | rfl <;> exact ⟨by simp [Side.Nonzero], by simp [Side.Nonzero]⟩
+
 end Tuc
